@@ -430,3 +430,27 @@ func (r *SliceReader) Read(p []byte) (int, error) {
 	}
 	return n, nil
 }
+
+// Seek makes SliceReader an io.ReadSeeker (a file-like object that may still return short reads,
+// which io.Reader allows at any time).
+func (r *SliceReader) Seek(off int64, whence int) (int64, error) {
+	var n int64
+	switch whence {
+	case io.SeekStart:
+		n = off
+	case io.SeekCurrent:
+		n = int64(r.off) + off
+	case io.SeekEnd:
+		n = int64(len(r.Data)) + off
+	default:
+		return 0, errors.New("sim: bad whence")
+	}
+	if n < 0 {
+		return 0, errors.New("sim: negative position")
+	}
+	if n > int64(len(r.Data)) {
+		n = int64(len(r.Data))
+	}
+	r.off = int(n)
+	return n, nil
+}
